@@ -250,6 +250,76 @@ func (e *FuncEnc) loopInvariantFormulas(li *loopInfo, bind map[*ssa.Phi]string, 
 			out = append(out, NamedFormula{Name: "auto:" + phi.Comment + "<=init", Formula: sx("<=", bind[phi], init)})
 		}
 	}
+	// inferred: range-index loops: the index stays below the length it is compared with
+	if iff, ok := li.header.Instrs[len(li.header.Instrs)-1].(*ssa.If); ok {
+		if cmp, ok := iff.Cond.(*ssa.BinOp); ok && cmp.Op == token.LSS {
+			if inc, ok := cmp.X.(*ssa.BinOp); ok && inc.Op == token.ADD {
+				if phi, ok := inc.X.(*ssa.Phi); ok && phi.Block() == li.header && phi.Comment == "rangeindex" {
+					if in, isInstr := cmp.Y.(ssa.Instruction); !isInstr || !li.body[in.Block()] {
+						if _, have := e.val[cmp.Y]; have || isConstLike(cmp.Y) {
+							out = append(out, NamedFormula{Name: "auto:rangeindex<len", Formula: sx("<", bind[phi], sx("+", e.v(cmp.Y), "0"))})
+						}
+					}
+				}
+			}
+		}
+	}
+	// inferred: `s = append(s, x)` once per iteration of a range-index loop with a
+	// single body block: len(s) == len(s at entry) + number of iterations done
+	if len(li.body) == 2 {
+		var idx *ssa.Phi
+		for _, in := range li.header.Instrs {
+			if phi, ok := in.(*ssa.Phi); ok && phi.Comment == "rangeindex" {
+				idx = phi
+			}
+		}
+		for _, in := range li.header.Instrs {
+			phi, ok := in.(*ssa.Phi)
+			if !ok || idx == nil {
+				break
+			}
+			if _, isSl := phi.Type().Underlying().(*types.Slice); !isSl {
+				continue
+			}
+			var start ssa.Value
+			okShape := true
+			for i, p := range li.header.Preds {
+				if li.body[p] {
+					c, isCall := phi.Edges[i].(*ssa.Call)
+					if !isCall {
+						okShape = false
+						break
+					}
+					bi, isB := c.Call.Value.(*ssa.Builtin)
+					if !isB || bi.Name() != "append" || c.Call.Args[0] != phi {
+						okShape = false
+						break
+					}
+					// exactly one element appended: the variadic slice of a [1]T array
+					sl, isS := c.Call.Args[1].(*ssa.Slice)
+					if !isS {
+						okShape = false
+						break
+					}
+					al, isA := sl.X.(*ssa.Alloc)
+					if !isA {
+						okShape = false
+						break
+					}
+					at, isArr := al.Type().Underlying().(*types.Pointer).Elem().Underlying().(*types.Array)
+					if !isArr || at.Len() != 1 {
+						okShape = false
+					}
+				} else {
+					start = phi.Edges[i]
+				}
+			}
+			if !okShape || start == nil {
+				continue
+			}
+			out = append(out, NamedFormula{Name: "auto:len(" + phi.Comment + ")", Formula: eq(sx("sl_len", bind[phi]), sx("+", sx("sl_len", e.v(start)), sx("+", bind[idx], "1")))})
+		}
+	}
 	// inferred: a loop whose body emits no response event keeps nResp
 	if li.modTrace && e.loopResponseFree(li) {
 		if entry := e.loopEntryTrace(li); entry != "" {
